@@ -8,12 +8,14 @@
 //!
 //! Families (key=value words, any order):
 //!  qw role=c|s kind=bi|uni|bip skip=N win=N cwin=N swin=N bufs=a.b,c,.. seed=N ids=MASK dbl=J|- dblp=J|- rd=N ps=N|-
-//!     fault=none|stop:C@N|close:C@N|afin|areset:C@J|lclose:C@J
+//!     psp=J|- via=conn|opener|clone fault=none|stop:C@N|close:C@N|timeout@N|afin|areset:C@J|lclose:C@J|cfin@J
+//!     (psp = poll_send attempted while buffer J is half written; cfin = the write of buffer J is abandoned at its
+//!      first Pending and the stream finished; via = which `impl OpenStreams` opens the stream / closes)
 //!     (a buffer is a DATA frame with payload chunks a.b.., or hN = HEADERS frame, tT:a.b = stream type T then a
 //!      DATA frame, yT = stream type T alone; ps = raw bytes sent afterwards with SendStreamUnframed::poll_send)
 //!  qr role=c|s kind=bi|uni|bip skip=N win=N cwin=N chunks=a,b,.. seed=N ids=MASK stop=none|C@idle|C@pend|C@pend2
 //!     fault=fin|reset:C@N|close:C@N|timeout@N|lclose:C
-//!  qa role=c|s op=accept_recv|accept_bidi|open_bidi|open_send fault=close:C|lclose:C|timeout
+//!  qa role=c|s op=accept_recv|accept_bidi|open_bidi|open_send via=conn|opener|clone fault=close:C|lclose:C|timeout
 //!  qd role=c|s dir=send|recv sid=S len=N seed=N fault=none|close:C|lclose:C|timeout|toolarge|disabled
 use std::collections::HashMap;
 use std::future::{poll_fn, Future};
@@ -174,6 +176,17 @@ impl BufSpec {
             BufSpec::Type(t) => out.extend(varint(*t)),
         }
         out
+    }
+}
+
+/// the caller's buffer for poll_send: the raw bytes in one chunk, or in three when the seed is odd
+fn raw_buf(seed: u64, n: usize) -> ChunkBuf {
+    let all = Bytes::from(gen_bytes(seed, 1000, 0, n));
+    if seed % 2 == 1 && n >= 3 {
+        let k = n / 3;
+        ChunkBuf::new(vec![all.slice(0..k), all.slice(k..2 * k), all.slice(2 * k..)])
+    } else {
+        ChunkBuf::new(vec![all])
     }
 }
 
@@ -372,10 +385,50 @@ enum AStream {
     Recv(h3_quinn::RecvStream),
 }
 
+/// How side A reaches `quic::OpenStreams`: the Connection itself, the handle returned by `opener()`
+/// (what h3's client and server use), or a clone of that handle.
+fn opener_handle(conn: &h3_quinn::Connection, via: &str) -> Option<h3_quinn::OpenStreams> {
+    match via {
+        "opener" => Some(quic::Connection::<ChunkBuf>::opener(conn)),
+        "clone" => {
+            let o = quic::Connection::<ChunkBuf>::opener(conn);
+            let o2 = o.clone();
+            drop(o);
+            Some(o2)
+        }
+        _ => None,
+    }
+}
+async fn a_open_bidi(
+    conn: &mut h3_quinn::Connection,
+    h: &mut Option<h3_quinn::OpenStreams>,
+) -> Result<h3_quinn::BidiStream<ChunkBuf>, StreamErrorIncoming> {
+    match h {
+        Some(o) => poll_fn(|cx| quic::OpenStreams::<ChunkBuf>::poll_open_bidi(o, cx)).await,
+        None => poll_fn(|cx| quic::OpenStreams::<ChunkBuf>::poll_open_bidi(conn, cx)).await,
+    }
+}
+async fn a_open_send(
+    conn: &mut h3_quinn::Connection,
+    h: &mut Option<h3_quinn::OpenStreams>,
+) -> Result<h3_quinn::SendStream<ChunkBuf>, StreamErrorIncoming> {
+    match h {
+        Some(o) => poll_fn(|cx| quic::OpenStreams::<ChunkBuf>::poll_open_send(o, cx)).await,
+        None => poll_fn(|cx| quic::OpenStreams::<ChunkBuf>::poll_open_send(conn, cx)).await,
+    }
+}
+fn a_close(conn: &mut h3_quinn::Connection, h: &mut Option<h3_quinn::OpenStreams>, code: u64, reason: &[u8]) {
+    match h {
+        Some(o) => quic::OpenStreams::<ChunkBuf>::close(o, Code::from(code), reason),
+        None => quic::OpenStreams::<ChunkBuf>::close(conn, Code::from(code), reason),
+    }
+}
+
 /// Obtain the stream under test on both sides.  `skip` streams of the same kind are opened (and dropped) first
 /// so that the id is not always the first one.  Returns A's adapter stream and P's raw halves.
 async fn streams(
     conn: &mut h3_quinn::Connection,
+    handle: &mut Option<h3_quinn::OpenStreams>,
     p: &quinn::Connection,
     kind: &str,
     skip: u64,
@@ -386,7 +439,7 @@ async fn streams(
         "bi" => {
             let mut last = None;
             for _ in 0..=skip {
-                let s = poll_fn(|cx| quic::OpenStreams::<ChunkBuf>::poll_open_bidi(conn, cx)).await.expect("open_bidi");
+                let s = a_open_bidi(conn, handle).await.expect("open_bidi");
                 if let Some(prev) = last.replace(s) {
                     // make the skipped stream visible to the peer, then forget about it
                     let (mut sd, _rv) = quic::BidiStream::split(prev);
@@ -421,7 +474,7 @@ async fn streams(
         "uni" if a_sends => {
             let mut last = None;
             for _ in 0..=skip {
-                let s = poll_fn(|cx| quic::OpenStreams::<ChunkBuf>::poll_open_send(conn, cx)).await.expect("open_send");
+                let s = a_open_send(conn, handle).await.expect("open_send");
                 if let Some(mut prev) = last.replace(s) {
                     let _ = poll_fn(|cx| prev.poll_finish(cx)).await;
                 }
@@ -511,8 +564,10 @@ async fn run_qw(certs: &Certs, c: &Case) -> String {
     let dblp = c.opt_n("dblp");
     let rd = c.n("rd", 0) as usize;
     let (fname, fcode, fat) = parse_fault(&c.s("fault", "none"));
-    let tc = transport(c.n("win", 1 << 20), c.n("cwin", 1 << 22), c.n("swin", 1 << 22), 0);
+    let idle_ms = if fname == "timeout" { 500 } else { 0 };
+    let tc = transport(c.n("win", 1 << 20), c.n("cwin", 1 << 22), c.n("swin", 1 << 22), idle_ms);
     let ps_len = c.opt_n("ps");
+    let psp = c.opt_n("psp");
     let bufs: Vec<BufSpec> = {
         let b = c.s("bufs", "-");
         if b == "-" {
@@ -526,14 +581,15 @@ async fn run_qw(certs: &Certs, c: &Case) -> String {
     for (j, b) in bufs.iter().enumerate() {
         expected.extend(b.wire(seed, j as u64));
     }
-    if let (Some(n), "none") = (ps_len, fname.as_str()) {
+    if let Some(n) = ps_len {
         expected.extend(gen_bytes(seed, 1000, 0, n as usize));
     }
 
     let pair = connect(certs, tc, &role).await;
     let mut conn = h3_quinn::Connection::new(pair.a.clone());
     let p = pair.p.clone();
-    let (astream, ps0, pr0) = streams(&mut conn, &p, &kind, skip, kind != "bip").await;
+    let mut handle = opener_handle(&conn, &c.s("via", "conn"));
+    let (astream, ps0, pr0) = streams(&mut conn, &mut handle, &p, &kind, skip, kind != "bip").await;
     // for bip the peer opened it and A writes on it; P reads from pr0
     let (done_tx, done_rx) = oneshot::channel::<()>();
     // how many bytes the peer has read (A closes locally only once nothing it wrote is still in flight)
@@ -575,7 +631,7 @@ async fn run_qw(certs: &Certs, c: &Case) -> String {
                     e => format!("accepterr:{:?}", e).replace(' ', "_"),
                 };
                 let _ = done_rx.await;
-                return (PrefixCheck::new(expected).show(), end, u64::MAX);
+                return (PrefixCheck::new(expected).show(), end, u64::MAX, 0);
             }
         };
         let pid: u64 = pr.id().into();
@@ -584,18 +640,22 @@ async fn run_qw(certs: &Certs, c: &Case) -> String {
         let mut end = String::from("open");
         let mut reads = 0u64;
         loop {
-            let limit = if (fname2 == "stop" || fname2 == "close") && (chk.pos as u64) < fat {
+            let peer_fault = fname2 == "stop" || fname2 == "close" || fname2 == "timeout";
+            let limit = if peer_fault && (chk.pos as u64) < fat {
                 buf.len().min((fat - chk.pos as u64) as usize)
             } else {
                 buf.len()
             };
-            if (fname2 == "stop" || fname2 == "close") && chk.pos as u64 >= fat {
+            if peer_fault && chk.pos as u64 >= fat {
                 if fname2 == "stop" {
                     let _ = pr.stop(VarInt::from_u64(fcode).unwrap());
                     end = "stopped".into();
-                } else {
+                } else if fname2 == "close" {
                     p.close(VarInt::from_u64(fcode).unwrap(), b"bye");
                     end = "closed".into();
+                } else {
+                    // stop reading and stay silent: the idle timeout does the rest
+                    end = "silent".into();
                 }
                 break;
             }
@@ -633,7 +693,7 @@ async fn run_qw(certs: &Certs, c: &Case) -> String {
             }
         }
         let _ = done_rx.await;
-        (chk.show(), end, pid)
+        (chk.show(), end, pid, chk.pos as u64)
     });
 
     // ---- adapter side
@@ -648,7 +708,7 @@ async fn run_qw(certs: &Certs, c: &Case) -> String {
                 W::S(s) => s.send_data(f),
             }
         }
-        fn poll_send(&mut self, cx: &mut std::task::Context<'_>, buf: &mut Bytes) -> Poll<Result<usize, StreamErrorIncoming>> {
+        fn poll_send<D: Buf>(&mut self, cx: &mut std::task::Context<'_>, buf: &mut D) -> Poll<Result<usize, StreamErrorIncoming>> {
             use h3::quic::SendStreamUnframed;
             match self {
                 W::B(s) => s.poll_send(cx, buf),
@@ -702,6 +762,8 @@ async fn run_qw(certs: &Certs, c: &Case) -> String {
     let mut dbl_out = String::from("-");
     let mut dblp_out = String::from("-");
     let mut fin2 = None;
+    let mut psp_out = String::from("-");
+    let mut cancelled = false;
     if fname == "afin" {
         let r = poll_fn(|cx| w.poll_finish(cx)).await;
         if r.is_err() {
@@ -734,6 +796,7 @@ async fn run_qw(certs: &Certs, c: &Case) -> String {
                 };
             }
             let mut first_pending = true;
+            let break_out = psp == Some(j) || (fname == "cfin" && fat == j);
             let r = poll_fn(|cx| match w.poll_ready(cx) {
                 Poll::Pending => {
                     if first_pending {
@@ -747,14 +810,49 @@ async fn run_qw(certs: &Certs, c: &Case) -> String {
                                 Err(e) => format!("refused:{}", stream_class(&e)),
                             };
                         }
+                        if break_out {
+                            return Poll::Ready(None);
+                        }
                     }
                     Poll::Pending
                 }
-                r => r,
+                Poll::Ready(r) => Poll::Ready(Some(r)),
             })
             .await;
+            let r = match r {
+                Some(r) => r,
+                None if fname == "cfin" => {
+                    // the caller gives up on the pending write (h3's send future dropped) and finishes the stream
+                    cancelled = true;
+                    let r = poll_fn(|cx| w.poll_finish(cx)).await;
+                    res = res_unit(&r);
+                    break;
+                }
+                None => {
+                    // poll_send while the framed write is unfinished: must be refused (the adapter panics), never
+                    // interleaved.  Give Quinn time to get credit back so that an unguarded poll_send would write.
+                    let mut praw = Bytes::from_static(&[0xdd; 100]);
+                    let attempt = tokio::time::timeout(
+                        Duration::from_secs(5),
+                        poll_fn(|cx| {
+                            match std::panic::catch_unwind(std::panic::AssertUnwindSafe(|| w.poll_send(cx, &mut praw))) {
+                                Err(_) => Poll::Ready("panic".to_string()),
+                                Ok(Poll::Ready(Ok(k))) => Poll::Ready(format!("ACCEPTED:{}", k)),
+                                Ok(Poll::Ready(Err(e))) => Poll::Ready(format!("err:{}", stream_class(&e))),
+                                Ok(Poll::Pending) => Poll::Pending,
+                            }
+                        }),
+                    )
+                    .await;
+                    psp_out = attempt.unwrap_or_else(|_| "ACCEPTED:pending".to_string());
+                    poll_fn(|cx| w.poll_ready(cx)).await
+                }
+            };
             if dblp == Some(j) && dblp_out == "-" {
                 dblp_out = "na".into();
+            }
+            if psp == Some(j) && psp_out == "-" {
+                psp_out = "na".into();
             }
             if r.is_err() {
                 res = res_unit(&r);
@@ -765,9 +863,10 @@ async fn run_qw(certs: &Certs, c: &Case) -> String {
     }
     q(&w, 3, &mut ids);
     let mut ps_out = String::from("-");
-    if let (Some(n), "none", "ok") = (ps_len, fname.as_str(), res.as_str()) {
+    let ps_faults = ["none", "stop", "close", "timeout"];
+    if let (Some(n), true, "ok") = (ps_len, ps_faults.contains(&fname.as_str()), res.as_str()) {
         // SendStreamUnframed::poll_send: raw bytes, one poll_write per call
-        let mut raw = Bytes::from(gen_bytes(seed, 1000, 0, n as usize));
+        let mut raw = raw_buf(seed, n as usize);
         ps_out = "ok".into();
         while raw.has_remaining() {
             let before = raw.remaining();
@@ -787,7 +886,7 @@ async fn run_qw(certs: &Certs, c: &Case) -> String {
     }
     match fname.as_str() {
         "none" => {
-            if res == "ok" {
+            if res == "ok" && (ps_out == "-" || ps_out == "ok") {
                 let r = poll_fn(|cx| w.poll_finish(cx)).await;
                 if r.is_err() {
                     res = format!("finerr:{}", res_unit(&r));
@@ -811,12 +910,20 @@ async fn run_qw(certs: &Certs, c: &Case) -> String {
                 }
             })
             .await;
-            quic::OpenStreams::<ChunkBuf>::close(&mut conn, Code::from(fcode), b"local");
-            // one more write attempt: what a write reports after the local close
-            let r = w.send_data(marker());
-            let r = match r {
-                Ok(()) => poll_fn(|cx| w.poll_ready(cx)).await,
-                Err(e) => Err(e),
+            a_close(&mut conn, &mut handle, fcode, b"local");
+            // one more write attempt: what a write reports after the local close (framed, or unframed when ps is given)
+            let r = if let Some(n) = ps_len {
+                let mut raw = Bytes::from(gen_bytes(seed, 1000, 0, (n as usize).max(1)));
+                ps_out = match poll_fn(|cx| w.poll_send(cx, &mut raw)).await {
+                    Ok(_) => "ok".into(),
+                    Err(e) => format!("err:{}", stream_class(&e)),
+                };
+                Ok(())
+            } else {
+                match w.send_data(marker()) {
+                    Ok(()) => poll_fn(|cx| w.poll_ready(cx)).await,
+                    Err(e) => Err(e),
+                }
             };
             res = res_unit(&r);
         }
@@ -825,9 +932,9 @@ async fn run_qw(certs: &Certs, c: &Case) -> String {
     q(&w, 4, &mut ids);
     let rid = w.recv_id().map(|x| x.to_string()).unwrap_or_else(|| "-".into());
     let _ = done_tx.send(());
-    let (recv, end, pid) = peer.await.expect("peer task");
+    let (recv, end, pid, peer_got) = peer.await.expect("peer task");
     let mut out = format!(
-        "ok res={} {} end={} ids={} pid={} rid={} dbl={} dblp={} ps={}",
+        "ok res={} {} end={} ids={} pid={} rid={} dbl={} dblp={} ps={} psp={}",
         res,
         recv,
         end,
@@ -836,8 +943,14 @@ async fn run_qw(certs: &Certs, c: &Case) -> String {
         rid,
         dbl_out,
         dblp_out,
-        ps_out
+        ps_out,
+        psp_out
     );
+    if fname == "cfin" {
+        // did everything that send_data accepted reach the peer before the FIN?
+        let accepted: u64 = wire_lens.iter().take(fat as usize + 1).sum();
+        out.push_str(&format!(" trunc={}", if !cancelled { "na" } else if peer_got < accepted { "yes" } else { "no" }));
+    }
     if let Some(f) = fin2 {
         out.push_str(&format!(" fin2={}", f));
     }
@@ -877,7 +990,8 @@ async fn run_qr(certs: &Certs, c: &Case) -> String {
     let pair = connect(certs, tc, &role).await;
     let mut conn = h3_quinn::Connection::new(pair.a.clone());
     let p = pair.p.clone();
-    let (astream, ps0, _pr0) = streams(&mut conn, &p, &kind, skip, false).await;
+    let mut handle = opener_handle(&conn, &c.s("via", "conn"));
+    let (astream, ps0, _pr0) = streams(&mut conn, &mut handle, &p, &kind, skip, false).await;
     let mut ps = ps0.expect("peer send half");
     let (go_tx, go_rx) = oneshot::channel::<()>();
     let (done_tx, done_rx) = oneshot::channel::<()>();
@@ -1085,7 +1199,7 @@ async fn run_qr(certs: &Certs, c: &Case) -> String {
             first = false;
             q(&r, 4, &mut ids);
         }
-        quic::OpenStreams::<ChunkBuf>::close(&mut conn, Code::from(fcode), b"local");
+        a_close(&mut conn, &mut handle, fcode, b"local");
     }
     while ended.is_none() {
         match poll_fn(|cx| r.poll_data(cx)).await {
@@ -1132,6 +1246,7 @@ async fn run_qa(certs: &Certs, c: &Case) -> String {
     let tc = transport(1 << 20, 1 << 22, 1 << 22, idle_ms);
     let pair = connect(certs, tc, &role).await;
     let mut conn = h3_quinn::Connection::new(pair.a.clone());
+    let mut handle = opener_handle(&conn, &c.s("via", "conn"));
     let mut pclose = String::from("-");
     match fname.as_str() {
         "close" => {
@@ -1139,7 +1254,7 @@ async fn run_qa(certs: &Certs, c: &Case) -> String {
             let _ = pair.a.closed().await;
         }
         "lclose" => {
-            quic::OpenStreams::<ChunkBuf>::close(&mut conn, Code::from(fcode), b"local");
+            a_close(&mut conn, &mut handle, fcode, b"local");
             if let quinn::ConnectionError::ApplicationClosed(ac) = pair.p.closed().await {
                 pclose = ac.error_code.into_inner().to_string();
             }
@@ -1158,11 +1273,11 @@ async fn run_qa(certs: &Certs, c: &Case) -> String {
             Ok(_) => "ok".to_string(),
             Err(e) => format!("err:{}", conn_class(&e)),
         },
-        "open_bidi" => match poll_fn(|cx| quic::OpenStreams::<ChunkBuf>::poll_open_bidi(&mut conn, cx)).await {
+        "open_bidi" => match a_open_bidi(&mut conn, &mut handle).await {
             Ok(_) => "ok".to_string(),
             Err(e) => format!("err:{}", stream_class(&e)),
         },
-        "open_send" => match poll_fn(|cx| quic::OpenStreams::<ChunkBuf>::poll_open_send(&mut conn, cx)).await {
+        "open_send" => match a_open_send(&mut conn, &mut handle).await {
             Ok(_) => "ok".to_string(),
             Err(e) => format!("err:{}", stream_class(&e)),
         },
